@@ -100,12 +100,15 @@ func (ly *vC15Layout) scenarios(u *vUniverse) []vScenario {
 		}
 		sc := vScenario{Name: "c15-holder-" + h, MaxMsg: 512 * 1024, Validity: 3}
 		sc.Nodes = []vNodeCfg{holders[h], req("did:nuts:B", []vKak{{kidB, true}}), req("did:nuts:C", []vKak{{kidC, true}}), req("did:nuts:B", []vKak{{kidB, true}}), req("", []vKak{}),
-			{Did: "did:nuts:A", Resolvable: true, Kaks: []vKak{{kidA, true}}, Dag: [][2]int{{ly.trunk, ly.trunk + 2}}, Priv: []int{}, NoPayload: []int{}}}
+			{Did: "did:nuts:A", Resolvable: true, Kaks: []vKak{{kidA, true}}, Dag: [][2]int{{ly.trunk, ly.trunk + 2}}, Priv: []int{}, NoPayload: []int{}},
+			req("did:nuts:Bb", []vKak{}), req("did:web:B", []vKak{}), req("did:nuts:b", []vKak{})}
 		// how the holder sees them: 1 = authenticated listed B, 2 = authenticated unlisted C, 3 = UNauthenticated claiming B, 4 = authenticated with empty DID,
 		// 5 = authenticated listed A that lacks most of the DAG
 		sc.Conns = []vConnCfg{{At: 0, Peer: 1, Auth: true, Did: "did:nuts:B"}, {At: 0, Peer: 2, Auth: true, Did: "did:nuts:C", PeerID: "node1"}, {At: 0, Peer: 3, Auth: false, Did: "did:nuts:B"},
-			{At: 0, Peer: 4, Auth: true, Did: "", PeerID: "node5"}, {At: 0, Peer: 5, Auth: true, Did: "did:nuts:A"}}
-		for p := 1; p <= 5; p++ {
+			{At: 0, Peer: 4, Auth: true, Did: "", PeerID: "node5"}, {At: 0, Peer: 5, Auth: true, Did: "did:nuts:A"},
+			// 6..8 = authenticated near-misses of the listed DID B: longer id, other method, other case
+			{At: 0, Peer: 6, Auth: true, Did: "did:nuts:Bb"}, {At: 0, Peer: 7, Auth: true, Did: "did:web:B"}, {At: 0, Peer: 8, Auth: true, Did: "did:nuts:b"}}
+		for p := 1; p <= 8; p++ {
 			d := holders[h].Did
 			sc.Conns = append(sc.Conns, vConnCfg{At: p, Peer: 0, Auth: d != "", Did: d})
 		}
